@@ -113,6 +113,10 @@ impl<F> MiniAllocator<F> {
         self.directory.dir_entry(stream_id)
     }
 
+    pub fn num_dir_entries(&self) -> usize {
+        self.directory.num_dir_entries()
+    }
+
     fn validate(&mut self, validation: Validation) -> io::Result<()> {
         let root_entry = self.directory.root_dir_entry();
         let root_stream_mini_sectors =
